@@ -68,6 +68,13 @@ fn run_interpreter(t: &TxCtx) -> Result<Result<Vec<Cond>, String>, Failure> {
             Ok(i) => i,
             Err(e) => return Err(format!("from_txdata: {}", e)),
         };
+        // "a descriptor which reproduces the spent coins": whenever one is inferred, it pays to
+        // the spent scriptPubKey
+        if let Ok(d) = interp.inferred_descriptor() {
+            if d.script_pubkey() != spk {
+                return Err(format!("INFERRED-DESCRIPTOR-MISMATCH {} pays to {} but the spent output is {}", d, d.script_pubkey().to_hex_string(), spk.to_hex_string()));
+            }
+        }
         let prevouts = Prevouts::All(&t.prevouts);
         let mut out = Vec::new();
         for c in interp.iter(&secp, &t.tx, t.idx, &prevouts) {
@@ -148,7 +155,7 @@ fn swap_sigs(items: &mut [Vec<u8>], old: &WorldSat, new: &WorldSat) {
 impl Check for C13 {
     fn id(&self) -> &'static str { "C13" }
     fn rule(&self) -> String {
-        "case = sane descriptor of any output type, world, real signatures, the library's own satisfaction; then one of: (i) unchanged, (ii) 1-3 mutations of the witness / scriptSig elements (for segwit inputs also an extra push in the scriptSig, next to the redeem-script push of p2sh-wrapped outputs or in the empty scriptSig of native ones) (drop, duplicate, swap, replace by empty / 0x01 / junk / another key's valid signature / a signature with a flipped byte or hash type), (iii) the same witness in a transaction with other nLockTime / nSequence values around the script's locks (other unit, 0, 0xfffffffe, 0xffffffff) with all signatures re-made for that transaction. Oracles: (1) the interpreter accepts the library's own satisfaction; (2) whenever Interpreter::from_txdata + iter(secp, tx, i, prevouts) yields no error, the reference interpreter accepts under consensus flags; (3) on accepted spends the reported SatisfiedConstraints equal, as a multiset, the executed path's successful signature checks (key, signature), successful hash locks (hash, preimage) and executed CLTV/CSV arguments, and make the lifted policy true. Non-trivial = mutated or lock-varied cases that the interpreter still accepts; distinct by (descriptor, world, variation).".into()
+        "case = sane descriptor of any output type, world, real signatures, the library's own satisfaction; then one of: (i) unchanged, (ii) 1-3 mutations of the witness / scriptSig elements (for segwit inputs also an extra push in the scriptSig, next to the redeem-script push of p2sh-wrapped outputs or in the empty scriptSig of native ones) (drop, duplicate, swap, replace by empty / 0x01 / junk / another key's valid signature / a signature with a flipped byte or hash type), (iii) the same witness in a transaction with other nLockTime / nSequence values around the script's locks (other unit, 0, 0xfffffffe, 0xffffffff) with all signatures re-made for that transaction. Oracles: (0) an inferred descriptor, whenever one is produced, pays to the spent scriptPubKey; (1) the interpreter accepts the library's own satisfaction; (2) whenever Interpreter::from_txdata + iter(secp, tx, i, prevouts) yields no error, the reference interpreter accepts under consensus flags; (3) on accepted spends the reported SatisfiedConstraints equal, as a multiset, the executed path's successful signature checks (key, signature), successful hash locks (hash, preimage) and executed CLTV/CSV arguments, and make the lifted policy true. Non-trivial = mutated or lock-varied cases that the interpreter still accepts; distinct by (descriptor, world, variation).".into()
     }
     fn assumptions(&self) -> Vec<String> { vec!["transaction version 2 (the interpreter is not given the version)".into()] }
     fn lanes(&self, tier: Tier) -> Vec<(&'static str, usize, usize)> {
@@ -360,6 +367,11 @@ impl Check for C13 {
         let secp = Secp256k1::verification_only();
         let consensus = verify_input(&t.tx, idx, &t.prevouts, &Flags::CONSENSUS, &secp);
         let interp = run_interpreter(&t)?;
+        if let Err(e) = &interp {
+            if e.starts_with("INFERRED-DESCRIPTOR-MISMATCH") {
+                return fail(&format!("inferred-descriptor/{}", d.kind()), e.clone());
+            }
+        }
         match (&interp, &consensus) {
             (Err(e), _) if variation == 0 => {
                 // (1) completeness on the library's own output
